@@ -527,3 +527,50 @@ package priority
 //@   requires [*] ghost-initial-state: gInfl == 0 && (forall k :: gInflP[k] == 0) && !gDivErr && !gStop && !gGraceful && !gCompleted && (forall k :: !in(gClosedIn, k)) && gPset == domset(opts.Inputs) && gH == opts.HandlersQuantity
 //@   modifies gDivErr, gPerm, gInv, anyelems(uint)
 //@   ensures [*] result1 == nil ==> result0 != nil
+
+// ---------------------------------------------------------------- C14: the dividers
+
+//@ pred distinct(s)
+//@   [*] forall a, b :: 0 <= a && a < b && b < len(s) ==> s[a] != s[b]
+
+// C14 for Fair: exactly the dividend is added, spread evenly, the extra units go to the
+// first (highest) priorities, nothing else changes.
+//@ func FairDivider
+//@   requires [*] distinct(priorities)
+//@   requires [*] no-overflow: distribution != nil ==> msum(distribution) + dividend < two64
+//@   modifies content(distribution)
+//@   ensures [* C14] returns-the-given-map-or-a-new-one: len(priorities) > 0 ==> ((distribution != nil ==> result == distribution) && (distribution == nil ==> fresh(result)))
+//@   ensures [C14] conservation: (len(priorities) > 0) ==> msum(result) == old(msum(distribution)) + dividend
+//@   ensures [C14] nothing-for-an-empty-list: len(priorities) == 0 ==> result == nil
+//@   ensures [C14] fair-increments: (len(priorities) > 0) ==> (forall j :: 0 <= j && j < len(priorities) ==>
+//@            result[priorities[j]] == old(distribution[priorities[j]]) + dividend / len(priorities) + ite(j < dividend % len(priorities), 1, 0))
+//@   ensures [C14] frame: len(priorities) > 0 ==> forall k :: (forall j :: 0 <= j && j < len(priorities) ==> priorities[j] != k) ==> (result[k] == old(distribution[k]) && (dom(result, k) <==> old(dom(distribution, k))))
+//@   loop 0
+//@     invariant [*] base == dividend / len(priorities) && divider == len(priorities)
+//@     invariant [* C14] ($i <= dividend % len(priorities) ==> remainder == dividend % len(priorities) - $i) && ($i >= dividend % len(priorities) ==> remainder == 0)
+//@     invariant [* C14] msum(distribution) == old(msum(distribution)) + base * $i + min($i, dividend % len(priorities))
+//@     invariant [* C14] forall j :: 0 <= j && j < $i ==> distribution[priorities[j]] == old(distribution[priorities[j]]) + base + ite(j < dividend % len(priorities), 1, 0)
+//@     invariant [* C14] forall j :: $i <= j && j < len(priorities) ==> distribution[priorities[j]] == old(distribution[priorities[j]])
+//@     invariant [* C14] forall k :: (forall j :: 0 <= j && j < $i ==> priorities[j] != k) ==> (distribution[k] == old(distribution[k]) && (dom(distribution, k) <==> old(dom(distribution, k))))
+
+// C14 for Rate: conservation and frame on all three exits (truncation, normal, leftover to
+// the first priority). The proportional part of a priority is the float expression
+// uint(math.Round(dividend/sum * priority)); floats are uninterpreted, so what is proved of
+// it is what follows from monotonicity: increments are non-increasing along a descending list.
+//@ func RateDivider
+//@   requires [*] distinct(priorities)
+//@   requires [*] no-overflow: distribution != nil ==> msum(distribution) + dividend < two64
+//@   requires [*] lsum(priorities, len(priorities)) < two64
+//@   modifies content(distribution)
+//@   ensures [* C14] returns-the-given-map-or-a-new-one: len(priorities) > 0 ==> ((distribution != nil ==> result == distribution) && (distribution == nil ==> fresh(result)))
+//@   ensures [C14] conservation: (len(priorities) > 0) ==> msum(result) == old(msum(distribution)) + dividend
+//@   ensures [C14] nothing-for-an-empty-list: len(priorities) == 0 ==> result == nil
+//@   ensures [C14] frame: len(priorities) > 0 ==> forall k :: (forall j :: 0 <= j && j < len(priorities) ==> priorities[j] != k) ==> (result[k] == old(distribution[k]) && (dom(result, k) <==> old(dom(distribution, k))))
+//@   ensures [C14] increments-non-increasing: (strictlyDesc(priorities) && lsum(priorities, len(priorities)) > 0) ==> (forall a, b :: 0 <= a && a < b && b < len(priorities) ==>
+//@            result[priorities[a]] - old(distribution[priorities[a]]) >= result[priorities[b]] - old(distribution[priorities[b]]))
+//@   loop 0
+//@     invariant [* C14] divider == lsum(priorities, len(priorities)) && base == fdiv(u2f(dividend), u2f(divider))
+//@     invariant [C14] forall j :: 0 <= j && j < $i ==> distribution[priorities[j]] == old(distribution[priorities[j]]) + f2u(fround(fmul(base, u2f(priorities[j]))))
+//@     invariant [C14] forall j :: $i <= j && j < len(priorities) ==> distribution[priorities[j]] == old(distribution[priorities[j]])
+//@     invariant [* C14] msum(distribution) + remainder == old(msum(distribution)) + dividend && remainder <= dividend
+//@     invariant [* C14] forall k :: (forall j :: 0 <= j && j < $i ==> priorities[j] != k) ==> (distribution[k] == old(distribution[k]) && (dom(distribution, k) <==> old(dom(distribution, k))))
